@@ -167,7 +167,9 @@ claim("C01",
       "KruegerTM.tla evaluates the Transverse Mercator projection inside the spec (Krueger/Karney series in n to n^5 with "
       "independently stated rational coefficients, arctangent and area-tangent series, verified Newton roots; neglected terms "
       "< 4e-6 m within 30 deg of the CM) at Pythagorean latitude x Pythagorean longitude difference (1.8..28 deg both sides), "
-      "and easting / northing must agree within 0.2 mm.",
+      "and easting / northing must agree within 0.2 mm; and at ARBITRARY positions (event TMA: random latitudes in the band, "
+      "|dlon| up to 30 deg, a hair off the equator / central meridian / band limits) with the sines and cosines of latitude and "
+      "longitude difference from the specification's own series (Trig.tla, KruegerTM!TMRatiosSC).",
       "Exactness is decided on the rational-trigonometry lattice (25 latitudes x 18 longitude differences x ellipsoids x "
       "projections), elsewhere by the symmetry / scaling laws and C02's closure. The in-spec series is the same mathematics as the "
       "code's (Krueger), written independently to n^5 instead of n^8; a common conceptual error of the method itself is not "
@@ -180,8 +182,9 @@ claim("C02",
       "zone) on a grid lattice (zones 1,2,30,31,59,60 + ten ISG zones x both hemispheres x eastings to +-3.3e6 m x northings 0..1e7), "
       "rejection by the forward conversion of lattice points whose latitude/longitude leave the domain, mirrored-hemisphere "
       "coordinates give opposite latitudes and identical longitudes (exact), and the stand-alone mga2gda converter agrees with the "
-      "library within 1e-10 deg on southern UTM input.",
-      "Entirely relational, so fully decided up to sampling. Known finding: the literal 2e-9 deg longitude closure fails above ~70 deg "
+      "library within 1e-10 deg on southern UTM input; the inverse of an exactly projected position (KruegerTM.tla, lattice and "
+      "arbitrary positions, events TM / TMA) returns that position (2e-9 deg + output-rounding envelope).",
+      "Decided up to sampling. Known finding: the literal 2e-9 deg longitude closure fails above ~70 deg "
       "latitude purely from the 4-decimal rounding of E/N (within the rounding envelope); anything beyond the envelope is a "
       "VIOLATION. " + GRID_NOTE,
       "TLA+ specification, TLC-enumerated strata and grid lattice exercised on the real code, TLC trace validation of closure laws in exact fixed-point arithmetic",
@@ -194,9 +197,9 @@ claim("C10",
       "psf/k0 and convergence independent of fe/fn/k0, psf independent of the size of the ellipsoid; and OFF the axes, at "
       "Pythagorean latitude x longitude difference, the scale factor (2e-8) and the convergence (1e-9 deg, with its sign) against "
       "KruegerTM.tla: k = k0 (A/a) sqrt(p^2+q^2) sec(lat) sqrt(1 - e2 sin^2 lat) / hypot(tau', cos dl), gamma = atan(q/p) + "
-      "atan(tau' tan dl / sqrt(1 + tau'^2)) evaluated in exact fixed point inside the spec.",
-      "Exact values are decided on the rational-trigonometry lattice, elsewhere by the relational laws (finite differences were not "
-      "built: the 0.1 mm output rounding limits them to 3e-7 deg). " + GRID_NOTE,
+      "atan(tau' tan dl / sqrt(1 + tau'^2)) evaluated in exact fixed point inside the spec - on the lattice and (event TMA) at "
+      "arbitrary positions with sines / cosines from Trig.tla.",
+      "Exact values are decided at the lattice points and at seeded random positions; the relational laws tie the rest. " + GRID_NOTE,
       "TLA+ specification, TLC-enumerated strata exercised on the real code, TLC trace validation of axis values, sign table and relational laws",
       "DESIGN.md section 4 C10")
 
